@@ -190,20 +190,38 @@ pub fn check_analysis(b: &Bound, formulas: &[String]) -> Option<String> {
         if let Err(e) = analyse_formulae(&b.bn, formulas.to_vec(), PrintOptions::NoPrint, Some(path_s.clone()), None) {
             return Some(format!("analyse_formulae fails: {e}"));
         }
-        let entries = cli::read_zip(&path).ok()?;
-        let flines: Vec<String> = entries.iter().find(|(n, _)| n == "formulae.txt")?.1.lines().map(|s| s.to_string()).collect();
+        let entries = match cli::read_zip(&path) {
+            Ok(e) => e,
+            Err(e) => return Some(format!("analyse_formulae returned Ok but no readable result archive was written: {e}")),
+        };
+        let flines: Vec<String> = match entries.iter().find(|(n, _)| n == "formulae.txt") {
+            Some(f) => f.1.lines().map(|s| s.to_string()).collect(),
+            None => return Some("the analysis archive has no formulae.txt".to_string()),
+        };
         if flines != formulas {
             return Some(format!("formulae.txt {flines:?} vs given {formulas:?}"));
         }
-        let model = &entries.iter().find(|(n, _)| n == "model.aeon")?.1;
-        let bn2 = BooleanNetwork::try_from(model.as_str()).ok()?;
+        let model = match entries.iter().find(|(n, _)| n == "model.aeon") {
+            Some(m) => &m.1,
+            None => return Some("the analysis archive has no model.aeon".to_string()),
+        };
+        let bn2 = match BooleanNetwork::try_from(model.as_str()) {
+            Ok(b) => b,
+            Err(e) => return Some(format!("archived model.aeon does not parse: {e}")),
+        };
         // k the analysis uses: maximal number of HCTL variables over the formulae
         let mut k = 0;
         for f in formulas {
-            let t = crate::refparser::parse_str(f, false).ok()?;
+            let t = match crate::refparser::parse_str(f, false) {
+                Ok(t) => t,
+                Err(e) => return Some(format!("harness: case formula {f} does not parse: {e}")),
+            };
             k = k.max(t.qdepth());
         }
-        let g2 = get_extended_symbolic_graph(&bn2, k as u16).ok()?;
+        let g2 = match get_extended_symbolic_graph(&bn2, k as u16) {
+            Ok(g) => g,
+            Err(e) => return Some(format!("graph for the archived model: {e}")),
+        };
         let loaded = match load_bdd_bundle(&path_s, g2.symbolic_context()) {
             Ok(l) => l,
             Err(e) => return Some(format!("load_bdd_bundle fails on the analysis archive: {e}")),
@@ -212,7 +230,10 @@ pub fn check_analysis(b: &Bound, formulas: &[String]) -> Option<String> {
             return Some(format!("{} entries for {} formulae", loaded.len(), formulas.len()));
         }
         for (i, f) in flines.iter().enumerate() {
-            let want = mc::model_check_formula_dirty(f, &g2).ok()?;
+            let want = match mc::model_check_formula_dirty(f, &g2) {
+                Ok(w) => w,
+                Err(e) => return Some(format!("library cannot evaluate line {i} ({f}): {e}")),
+            };
             match loaded.get(&format!("formula-{i}")) {
                 Some(s) if s.as_bdd() == want.as_bdd() => {}
                 Some(_) => return Some(format!("entry formula-{i} is not the result of line {i} ({f})")),
@@ -237,7 +258,10 @@ pub fn check_analysis_ctx(b: &Bound) -> Option<String> {
     let formulas: Vec<String> = vec!["%raw%".into(), format!("%rawa% | {v0}"), "EF %rawa%".into(), "~ %rawa%".into(), "%p% & %rawa%".into(), "!{x} in %rawa%: AX ({x} | %p%)".into()];
     let k = 1u16;
     let r = guarded(AssertUnwindSafe(|| -> Option<String> {
-        let g = get_extended_symbolic_graph(&b.bn, k).ok()?;
+        let g = match get_extended_symbolic_graph(&b.bn, k) {
+            Ok(g) => g,
+            Err(e) => return Some(format!("graph with k={k}: {e}")),
+        };
         let sc = g.symbolic_context();
         let fams = label_families(b, 1);
         let sets: HashMap<String, GraphColoredVertices> = HashMap::from([
@@ -422,6 +446,7 @@ pub fn run(tier: &str) -> Result<Report, String> {
     rep.set("large_set_round_trip", json!("OR_i (a_i & b_i) over 13 pairs of a 26-variable network (about 2^13 BDD nodes), its complement and the unit set"));
     // analysis archives: entry formula-i <-> line i
     let alists: Vec<Vec<String>> = vec![
+        vec![],
         vec!["EF a".into()],
         vec!["!{x}: AX {x}".into(), "a".into(), "!{x}: AG EF {x}".into()],
         vec!["a".into(), "a".into(), "~ a".into()],
